@@ -1,2 +1,51 @@
-(* C10 — statements (under construction) *)
-From MPD Require Import Bytes Tables ParserModel BuilderModel ConnModel ParserProofs ConnProofs.
+(* C10 — end of stream is clean only on a response boundary.  Statements only. *)
+From MPD Require Import Bytes Tables ParserModel BuilderModel ConnModel ParserProofs ConnProofs GrammarProofs.
+Open Scope N_scope.
+
+(* For EVERY byte string (well-formed or not) that remains when the stream ends: the end is
+   reported clean iff nothing at all remains after the last complete response. *)
+Theorem c10_clean_iff_nothing_left : forall all, fst (ref_from Initial all TEof) = CleanEof <-> all = [].
+Proof. exact clean_eof_iff. Qed.
+
+Theorem c10_eof_outcomes : forall all,
+  let o := fst (ref_from Initial all TEof) in
+  (exists r, o = Resp r) \/ o = ErrInvalid \/ (o = CleanEof /\ all = []) \/ (o = ErrEof /\ all <> []).
+Proof. exact eof_outcomes. Qed.
+
+(* with C02 this is the behaviour of both connections under every segmentation, and the complete
+   responses before the end are still delivered: the run is [responses ++ one terminal outcome] *)
+Theorem c10_run_shape : forall fuel c r,
+  wf_reader r -> pol_ok (c_policy c) (length (c_buf c)) -> (length (stream (c_buf c) r) < fuel)%nat ->
+  exists rs o, run fuel 0 c r = map Resp rs ++ [o] /\ (forall x, o <> Resp x).
+Proof.
+  intros fuel c r W P F. rewrite (run_ref fuel c r W P). apply ref_run_terminal. exact F.
+Qed.
+
+(* once something of a response has been consumed the builder never reports "nothing in progress" *)
+Theorem c10_progress_is_remembered : forall k buf st st' rest,
+  (length buf <= k)%nat -> st <> Initial -> bparse_all st buf = (st', rest, NeedMore) -> st' <> Initial.
+Proof. exact needmore_keeps_progress. Qed.
+
+(* greeting: a stream ending inside an otherwise possible greeting line needs more bytes, hence
+   (connect_ref) is an unexpected EOF under every segmentation *)
+Theorem c10_greeting_cut_prefix : forall p, is_prefix p GP = true -> p <> GP -> p_greeting p = RIncomplete.
+Proof. exact greeting_incomplete_prefix. Qed.
+Theorem c10_greeting_cut_version : forall v, no_lf_b v = true -> p_greeting (GP ++ v) = RIncomplete.
+Proof. exact greeting_incomplete_version. Qed.
+
+(* both disjuncts of the EOF test are needed: complete lines without OK / a partial OK *)
+Example c10_ex :
+  fst (ref_from Initial (b "a: b" ++ [LF]) TEof) = ErrEof /\
+  fst (ref_from Initial (b "OK") TEof) = ErrEof /\
+  fst (ref_from Initial (b "binary: 5" ++ [LF] ++ b "ab") TEof) = ErrEof /\
+  ref_run 9 (b "OK" ++ [LF] ++ b "x: y" ++ [LF] ++ b "list_OK" ++ [LF]) TEof =
+    [Resp (mkResp [empty_frame] None); ErrEof] /\
+  ref_run 9 (b "OK" ++ [LF]) TEof = [Resp (mkResp [empty_frame] None); CleanEof].
+Proof. repeat split; vm_compute; reflexivity. Qed.
+
+Print Assumptions c10_clean_iff_nothing_left.
+Print Assumptions c10_eof_outcomes.
+Print Assumptions c10_run_shape.
+Print Assumptions c10_progress_is_remembered.
+Print Assumptions c10_greeting_cut_prefix.
+Print Assumptions c10_greeting_cut_version.
